@@ -106,7 +106,7 @@ def run(tier, seed, replay=None):
     samples = []
     # (T3) decompiled code = denoted trees
     n = 90 if tier == "quick" else 900
-    cases = harness.gen_cases(seed, 1, n, lambda rng, i: gen.add_feature_tests(rng, gen.gen_expr_program(rng)) if i % 3 == 2 else gen.gen_expr_program(rng))
+    cases = harness.gen_cases(seed, 1, n, lambda rng, i: (lambda pr: gen.add_aliases(rng, pr) if i % 4 == 1 else pr)(gen.add_feature_tests(rng, gen.gen_expr_program(rng)) if i % 3 == 2 else gen.gen_expr_program(rng)))
     for i, (name, prog) in enumerate(cases):
         opts = OPTS[i % len(OPTS)]
         r = harness.compile_cases(build, work, [(name, prog)], extra_args=opts)[0]
@@ -191,7 +191,7 @@ def run(tier, seed, replay=None):
     per = 8 if tier == "quick" else 80
     ntext = 40 if tier == "quick" else 120
     for fi, (fname, mk) in enumerate(fams):
-        cases = harness.gen_cases(seed, 200 + fi, per, lambda rng, i, mk=mk: mk(rng))
+        cases = harness.gen_cases(seed, 200 + fi, per, lambda rng, i, mk=mk: (lambda pr: gen.add_aliases(rng, pr) if i % 3 == 2 else pr)(mk(rng)))   # every third program refers to items by slot aliases
         for ci, (name, prog) in enumerate(cases):
             name = "e%s%s" % (fname[0], name)
             opts = OPTS[(ci + fi) % len(OPTS)]
